@@ -13,7 +13,17 @@ let is_code_line (l : n list) = (match extract_exit_code l with Some _ -> true |
 let tests_of toks = List.filter_map (function TTest (cfg, cm, code, _) -> Some (cfg, cm, code) | _ -> None) toks
 
 let run () = iter_lines (fun line ->
-  match split_on '|' (String.sub line 2 (String.length line - 2)) with
+  let fields = split_on '|' (String.sub line 2 (String.length line - 2)) in
+  let info = (if List.length fields = 7 then List.nth fields 6 else "") in
+  (* K lines: the same through the real `scrut update --replace -y` (twice) and `scrut test`, default language or --markdown-languages sh *)
+  if info <> "" then begin
+    bump "through:cli"; List.iter (fun f -> if String.length f > 5 && String.sub f 0 5 = "lang=" then bump f) (split_on ' ' info);
+    let ends_with s suf = String.length s >= String.length suf && String.sub s (String.length s - String.length suf) (String.length suf) = suf in
+    let contains s sub = (let n = String.length sub in let rec go i = i + n <= String.length s && (String.sub s i n = sub || go (i + 1)) in go 0) in
+    if not (contains info "update=0,0") then report "BAD" ("`scrut update` did not run: " ^ info) line;
+    if not (ends_with info "test=0") then report "SPEC:C10" ("after `scrut update` (twice) `scrut test` does not pass on the updated document: " ^ info) line
+  end;
+  match (if info <> "" then List.filteri (fun i _ -> i < 6) fields else fields) with
   | [doc; kinds; u1; u2; c0; c1] ->
     let orig = str_lines (text_of_hex doc) in
     let t0 = md_tokens orig in
